@@ -41,12 +41,22 @@ SPEC = dict(
           "refresh; the explicit-duration witness. Random part: op mix hold 36% / system hold 10% / proceed 8% / refresh 10% / "
           "reset or last-refresh alone 6% / tick 30%, ticks landing on or 1 ns next to 48h/90d/95d after earlier events; every "
           "fifth history also uses explicit durations and HoldRefresh with holder system (compared with the model only). "
-          "Non-trivial = a history in which a gating snap's hold was reported and a request was refused."),
+          "Non-trivial = a history in which a gating snap's hold was reported and a request was refused. "
+          "requests driver (gocheck suite with the package's fake store/backend, gate-auto-refresh-hook and refresh-app-awareness on, "
+          "running apps faked with MockRefreshAppsCheck): holds by gating snaps, proceeds, clock ticks, last-refresh updates and REAL "
+          "snapstate.Update / UpdateMany / Revert requests that are accepted, refused because of running apps, or refused by a change "
+          "conflict; fixed part: snap 2 holds snap 1, after 1 h / 47 h a request (5 kinds) hits snap 1, snap 2 holds again, the clock "
+          "passes 48 h after the first hold (10 histories), the 2 histories of the recorded finding, 1 conflict history; 40 random "
+          "histories. The same table / HeldSnaps / clock observations and the same monitor as the holds driver; the monitor keeps its "
+          "own episode starts and allows a hold record to disappear only after proceed, an accepted refresh request, or a refused hold."),
     exhaustive=dict(quick=False, thorough=False),
     trusted_base=[
         "translators/holdconsts.go (go/ast): constant expressions of the four durations; shape of the two HoldRefresh call sites",
         "hand-written model coq/models/Holds.v of overlord/snapstate/autorefresh_gating.go, tied by the differential run "
         "(harness/overlay/overlord/snapstate/zz_verif_c15_test.go): the whole snaps-hold table and HeldSnaps are compared after every operation",
+        "refresh requests: whether a request is accepted or refused (running apps, conflicts, store) is an outcome recorded by the "
+        "requests driver, not modelled; the model says what each outcome does to the hold records "
+        "(harness/overlay/overlord/snapstate/zz_verif_c15_api_test.go; handlers never run, LastRefreshTime is set by the driver)",
         "time.Time arithmetic is modelled as unbounded integer nanoseconds with Sub saturating at int64; monotonic clock readings, "
         "the mtime fallback of lastRefreshed (snaps without LastRefreshTime) and encoding/json of the state are not modelled",
     ],
@@ -57,6 +67,12 @@ SPEC = dict(
         "property states; a gating snap that is refused and asks again later starts a new episode",
         "resetGatingForRefreshed is modelled for one snap per call (its only call site); pruneGating, pruneSnapsHold (snap removal) are "
         "not operations of the model: both only delete entries, which preserves every invariant proved",
+        "KNOWN FINDING refused-updatemany-drops-holds: `a refused refresh request leaves every hold record alone` is proved for requests "
+        "that name one snap (C15_refused_refresh_changes_nothing) and refuted for requests naming several (C15_refused_multi_snap_request_refuted); "
+        "for those the 48 h bound holds per model episode only, and a refused request ends the episode of the snaps prepared before the refusal",
+        "an accepted refresh request drops the hold records when its tasks are created, not when the refresh has happened; a refresh change "
+        "that later fails or is undone does not restore them (no undo touches snaps-hold), so the gating snap can start a new episode although "
+        "the snap was not refreshed: by the property's wording the episode ended with the accepted request; the 90 d bound is unaffected",
         "a system hold requested to end at exactly the current instant is an already expired hold (not reported at that instant "
         "either): the convention of the repair c2c6542; the monitor demands it, C15_system_hold states the exact end",
     ],
